@@ -305,7 +305,7 @@ impl Pending for SamplePoint {
 
 impl TimingPointsState {
     fn add_control_point<P: Pending>(&mut self, time: f64, point: P, timing_change: bool) {
-        if (time - self.pending_control_points_time).abs() >= f64::EPSILON {
+        if cmp_time(time, self.pending_control_points_time).is_ne() {
             self.flush_pending_points();
         }
 
